@@ -430,3 +430,43 @@ func c06EscapeAtCursor(c *core.Check) {
 		r.Anchor("tokenizer: tests of the backslash-newline prefix")
 	}
 }
+
+// c06LineStart: source positions.  The column of a token is counted from the last newline before it; the chunk
+// consumed since the previous token may hold several newlines (a blank line, a comment of several lines), so the
+// position stored as the start of the current line must not be the *first* newline of the chunk.
+func c06LineStart(c *core.Check) {
+	p := c.Prog
+	r := c.Rule("R11", "the current line starts after the last newline: in updateLine the value stored as the start of the current line (lineIndex) does not come from a first-occurrence search (IndexByte, Index, IndexRune, IndexAny) over the text consumed since the previous token — with two newlines in that text the columns of the following tokens would be counted from the wrong one", 1)
+	fn := p.Lookup("css/parser.(*tokenizer).updateLine")
+	if fn == nil {
+		r.Anchor("css/parser.(*tokenizer).updateLine")
+		return
+	}
+	n := 0
+	core.Instrs(fn, func(in ssa.Instruction) {
+		st, ok := in.(*ssa.Store)
+		if !ok {
+			return
+		}
+		fa, ok := st.Addr.(*ssa.FieldAddr)
+		if !ok || core.FieldName(fa) != "lineIndex" {
+			return
+		}
+		n++
+		first := arithDerives(st.Val, func(v ssa.Value) bool {
+			call, ok := v.(*ssa.Call)
+			if !ok || call.Call.StaticCallee() == nil {
+				return false
+			}
+			switch call.Call.StaticCallee().Name() {
+			case "IndexByte", "Index", "IndexRune", "IndexAny":
+				return true
+			}
+			return false
+		})
+		r.Cond(!first, "css/parser.(*tokenizer).updateLine | start of the current line", p.Pos(st.Pos()), "not the first newline of the consumed text", "the start of the current line is the first newline of the text consumed since the previous token: after a blank line or a comment of several lines every column on the next line is too large (`a {\\n\\n  b: c }` reports b at 3:4 instead of 3:3)")
+	})
+	if n == 0 {
+		r.Anchor("updateLine: tk.lineIndex = …")
+	}
+}
